@@ -296,7 +296,7 @@ def fault_cases(draw, max_faults=2):
 
 class Faults(Facet):
     name = "faults"
-    examples = {"quick": 6000, "thorough": 100000}
+    examples = {"quick": 6000, "thorough": 300000}
     shards = {"quick": 16, "thorough": 16}
 
     def strategy(self, tier):
@@ -364,7 +364,7 @@ class Fuzz(Facet):
     name = "fuzz"
     tiers = ("thorough",)
     shards = {"quick": 0, "thorough": 16}
-    runs = 12000
+    runs = 30000
 
     def external(self, tier, seed, shard, nshards, suppressed):
         import json
